@@ -240,61 +240,66 @@ def main():
                 except FileNotFoundError as e:
                     undecided.append('kani %s: %s' % (kn, e))
             target_dir = os.path.join(VERIF, 'work', 'kani-target')
+            pairs = []
             for ks in parsed:
                 for h in ks.harnesses:
                     if h.kind == 'bounded' and tier != 'thorough' and not P.get('bounded_in_quick'):
                         continue
-                    kani.run_harness(scratch, ks, h, target_dir, timeout=registry.KANI_TIMEOUT)
+                    pairs.append((ks, h))
+            if pairs:
+                kani.run_many(scratch, pairs, target_dir, timeout=registry.KANI_TIMEOUT)
+            for ks, h in pairs:
                     checker_cmds.append(h.cmd)
                     rec = {'set': ks.name, 'harness': h.name, 'kind': h.kind, 'status': h.status, 'checks': h.checks_total,
                            'failed': h.checks_failed, 'time_s': round(h.time_s, 1), 'unwind': h.unwind, 'target': ks.target}
                     solver_time['kani::%s::%s' % (ks.name, h.name)] = round(h.time_s, 1)
                     full = h.name in P.get('kani_full', [])
+                    if h.status == 'FAILED':
+                        unw = [fc for fc in h.failed_checks if 'unwinding' in fc['desc']]
+                        if unw and len(unw) == len(h.failed_checks):
+                            undecided.append('kani %s::%s: loop bound not sufficient (%s)' % (ks.name, h.name, unw[0]['desc']))
+                            kani_ev.append(rec)
+                            continue
+                        oblid = ('kani::%s::%s' if h.kind == 'complete' else 'kani-bounded::%s::%s') % (ks.name, h.name)
+                        listed = full and any(k['obligation'] == oblid for k in known_here)
+                        if listed and tier == 'quick':
+                            # a listed known finding: the quick tier only confirms that the full obligation still fails;
+                            # the counterexample is replayed on the real code in the thorough tier
+                            test, replayed, pout = '', None, 'replay skipped in quick tier (listed known finding)'
+                        else:
+                            test, replayed, pout = kani.concrete_playback(scratch, ks, h, target_dir, timeout=registry.KANI_TIMEOUT)
+                        e = {'obligation': ('kani::%s::%s' if h.kind == 'complete' else 'kani-bounded::%s::%s') % (ks.name, h.name), 'function': h.name, 'kind': 'kani', 'unit': ks.name,
+                             'message': '; '.join(fc['desc'] for fc in h.failed_checks[:4]), 'clause': '', 'source': ks.target,
+                             'rendered': h.raw_tail[-2500:], 'playback': test, 'replayed_on_real_code': replayed, 'replay_output': pout}
+                        rec['counterexample_replayed_on_real_code'] = replayed
+                        if full:
+                            hit = None
+                            for k in known_here:
+                                if k['obligation'] == e['obligation']:
+                                    hit = k
+                            known_obl.append({'obligation': e['obligation'], 'message': e['message'], 'listed': bool(hit), 'counterexample_replayed_on_real_code': replayed})
+                            if hit:
+                                known_hits.append((hit, e))
+                            else:
+                                violations.append(dict(e, why='full-strength harness fails and is not a listed known finding'))
+                        else:
+                            violations.append(e)
+                    elif h.status != 'SUCCESSFUL':
+                        undecided.append('kani %s::%s: no verdict (timeout/crash): %s' % (ks.name, h.name, h.raw_tail[-300:].replace('\n', ' | ')))
+                    if h.cover_unsat:
+                        undecided.append('kani %s::%s: cover not satisfied (vacuous assumption): %s' % (ks.name, h.name, h.cover_unsat[:3]))
                     if h.kind == 'complete':
                         if not full:
                             obligations += max(1, h.checks_total)
+                            if h.status in ('SUCCESSFUL', 'FAILED'):
+                                discharged += max(0, max(1, h.checks_total) - h.checks_failed)
                         if h.status == 'SUCCESSFUL':
-                            if not full:
-                                discharged += max(1, h.checks_total)
                             functions_under_contract.append('%s (Kani harness %s::%s)' % (ks.target, ks.name, h.name))
                             if len(samples) < 16:
                                 samples.append({'obligation': 'kani::%s::%s' % (ks.name, h.name), 'checks': h.checks_total, 'kind': 'complete (loop-free, full domain)'})
-                        elif h.status == 'FAILED':
-                            unw = [fc for fc in h.failed_checks if 'unwinding' in fc['desc']]
-                            if unw and len(unw) == len(h.failed_checks):
-                                undecided.append('kani %s::%s: not loop-free under the stated unwind (%s)' % (ks.name, h.name, unw[0]['desc']))
-                            else:
-                                kani.concrete_playback(scratch, ks, h, target_dir, timeout=registry.KANI_TIMEOUT)
-                                e = {'obligation': 'kani::%s::%s' % (ks.name, h.name), 'function': h.name, 'kind': 'kani', 'unit': ks.name,
-                                     'message': '; '.join(fc['desc'] for fc in h.failed_checks[:4]), 'clause': '', 'source': ks.target,
-                                     'rendered': h.raw_tail[-2500:], 'playback': h.playback}
-                                if full:
-                                    hit = None
-                                    for k in known_here:
-                                        if k['obligation'] == e['obligation']:
-                                            hit = k
-                                    known_obl.append({'obligation': e['obligation'], 'message': e['message'], 'listed': bool(hit)})
-                                    if hit:
-                                        known_hits.append((hit, e))
-                                    else:
-                                        violations.append(dict(e, why='full-strength harness fails and is not a listed known finding'))
-                                else:
-                                    discharged += max(0, h.checks_total - h.checks_failed)
-                                    violations.append(e)
-                        else:
-                            undecided.append('kani %s::%s: no verdict (timeout/crash): %s' % (ks.name, h.name, h.raw_tail[-300:].replace('\n', ' | ')))
-                        if h.cover_unsat:
-                            undecided.append('kani %s::%s: cover not satisfied (vacuous assumption): %s' % (ks.name, h.name, h.cover_unsat[:3]))
                     else:
                         rec['bound_note'] = h.note
                         bounded_ev.append(rec)
-                        if h.status == 'FAILED':
-                            kani.concrete_playback(scratch, ks, h, target_dir, timeout=registry.KANI_TIMEOUT)
-                            violations.append({'obligation': 'kani-bounded::%s::%s' % (ks.name, h.name), 'function': h.name, 'kind': 'kani-bounded', 'unit': ks.name,
-                                               'message': '; '.join(fc['desc'] for fc in h.failed_checks[:4]), 'clause': '', 'source': ks.target,
-                                               'rendered': h.raw_tail[-2500:], 'playback': h.playback})
-                        elif h.status != 'SUCCESSFUL':
-                            undecided.append('kani(bounded) %s::%s: no verdict' % (ks.name, h.name))
                     kani_ev.append(rec)
             trusted.add('kani: CBMC %s bit-precise model of the compiled MIR; stubs: alloc::fmt::format where declared in the harness' % '6.x')
         finally:
@@ -333,7 +338,10 @@ def main():
             entry['verifier_output'] = v.get('rendered')
             if v.get('playback'):
                 entry['counterexample_test'] = v['playback']
-                found_input = True
+                entry['replayed_on_real_code'] = v.get('replayed_on_real_code')
+                entry['replay_output'] = v.get('replay_output')
+                if v.get('replayed_on_real_code'):
+                    found_input = True
             rep['failed_obligations'].append(entry)
         # replay oracles
         for v in violations:
